@@ -156,6 +156,17 @@ func checkC11(ctx *Ctx, c *Case, rounds int) error {
 			shared = dec
 		}
 	}
+	injectNils := func(m proto.Message) {
+		// nil list elements / map values / wrapped messages in a quarter of the cases
+		if digest(c.Bytes, "nil")%4 != 0 {
+			return
+		}
+		sites := model.NilSites(m)
+		for i := 0; i < len(sites) && i < 3; i++ {
+			sites[(int(digest(c.Bytes, fmt.Sprint(i))%uint64(len(sites))))].Apply()
+		}
+	}
+	injectNils(shared)
 	byG := map[int][]Op{}
 	maxG := 0
 	for _, op := range c.Ops {
@@ -167,6 +178,7 @@ func checkC11(ctx *Ctx, c *Case, rounds int) error {
 	privs := make([]proto.Message, maxG)
 	for g := range privs {
 		privs[g] = model.BuildP(t, d.ProtoReflect())
+		injectNils(privs[g])
 	}
 	if procs := c.argInt("procs"); procs > 0 {
 		defer runtime.GOMAXPROCS(runtime.GOMAXPROCS(procs))
@@ -203,6 +215,7 @@ func checkC11(ctx *Ctx, c *Case, rounds int) error {
 			// for the first case of each type in a process, the type's own lazily
 			// initialised state - is first touched by the concurrent readers.
 			seq := model.BuildP(t, d.ProtoReflect())
+			injectNils(seq)
 			want = make([][]string, maxG)
 			for g := 0; g < maxG; g++ {
 				for _, op := range byG[g] {
